@@ -92,6 +92,12 @@ def step(s: Store, op: dict, log: list):
                 r = h(data, axes, weights=w, **kw)
             s.set(op["out"], r)
             return "ok"
+        if name == "empty" and op.get("share"):
+            # ONE binning object handed to the facade for all axes (`h(None, binning, dim=d)`): every axis must still get
+            # bins of its own
+            r = h(None, mk_binning(op["axes"][0]), dim=len(op["axes"]))
+            s.set(op["out"], r)
+            return "ok"
         if name == "empty":
             axes = [mk_binning(b) for b in op["axes"]]
             klass = Histogram2D if len(axes) == 2 else HistogramND
